@@ -258,6 +258,12 @@ impl FileUploadSession {
         debug_assert_le!(xorb.num_bytes(), *MAX_XORB_BYTES);
         debug_assert_le!(xorb.data.len(), *MAX_XORB_CHUNKS);
 
+        // Record the chunks of this xorb in the session shard, as is done for the xorbs cut while a file
+        // is processed; otherwise later sessions cannot deduplicate against them.
+        if xorb.num_bytes() > 0 {
+            self.shard_interface.add_cas_block(xorb.cas_info.clone()).await?;
+        }
+
         self.register_new_xorb_for_upload(xorb).await?;
 
         for fi in new_files {
